@@ -112,7 +112,7 @@ def deco(rng, ctx, p=0.5):
     if rng.random() < p * 0.5:
         out.append(rng.choice(["k::sec", "who::ann", "est::3"]))
     if rng.random() < ctx.get("date_prob", 0.0):
-        out.append(rng.choice(["2024-05-10", "2099-12-31", "2100-01-01", "2150-03-01", "2019-02-28", "2250-07-04"]))
+        out.append(rng.choice(["2024-05-10", "2099-12-31", "2100-01-01", "2150-03-01", "2019-02-28", "2250-07-04"] if ctx.get("far_dates", True) else ["2024-05-10", "2099-12-31", "2000-01-01", "2019-02-28", "2068-07-04", "2069-01-01"]))
     return out
 
 
@@ -146,10 +146,10 @@ def gen_page(rng, ctx, zalloc, with_zid=True, sections=True):
     return "\n".join(lines) + "\n", blocks
 
 
-def gen_dir(rng, npages=(2, 5), with_zid=True, sections=True, date_prob=0.0):
+def gen_dir(rng, npages=(2, 5), with_zid=True, sections=True, date_prob=0.0, far_dates=True):
     names = rng.sample(PAGES, rng.randint(*npages))
     zalloc = ZidAlloc(rng)
-    ctx = {"pages": names + ["nosuch"], "zids": [], "gids": ["g1", "g2", "G3"], "rids": ["r1", "r2"], "date_prob": date_prob}
+    ctx = {"pages": names + ["nosuch"], "zids": [], "gids": ["g1", "g2", "G3"], "rids": ["r1", "r2"], "date_prob": date_prob, "far_dates": far_dates}
     files = {}
     for nm in names:
         txt, blocks = gen_page(rng, ctx, zalloc, with_zid, sections)
